@@ -12,7 +12,8 @@
    UUIDv5 hash [H] as parameters: every theorem holds for every permuting [pi] and every [H]. *)
 From Aldrin Require Import Codec.BaseProofs Codec.RoundTrip
   Intro.Ir Intro.IrProofs Intro.Canon Intro.CanonProofs Intro.CanonWf Intro.CanonInj Intro.TypeId
-  Intro.ClosureProofs Intro.TypeIdProofs Intro.RecordProofs Intro.ConstsTie Props.C20_lemmas.
+  Intro.ClosureProofs Intro.TypeIdProofs Intro.ClosureFuel Intro.LexProofs Intro.RecordProofs Intro.ConstsTie
+  Props.C20_lemmas.
 From Coq Require Import Permutation.
 Open Scope N_scope.
 
@@ -87,6 +88,35 @@ Theorem C20_iff : forall (H : uuid -> list N -> uuid) (A B : univ) piA piB fa fb
 Proof. exact type_id_iff. Qed.
 Print Assumptions C20_iff.
 
+(* the runs the theorems above speak about do return: with finitely many reachable types the loop
+   terminates within |refs root| + (1 + max |refs t|) * |all| iterations, for every pop order *)
+Theorem C20_terminates : forall (U : univ) pi (all : list (U_T U)) fuel,
+  (forall l, Permutation (pi l) l) -> well_formed U -> coherent U ->
+  (forall t, u_reach U t -> In t all) ->
+  (length (U_refs U (U_root U)) + S (mref (U_T U) (U_refs U) all) * length all < fuel)%nat ->
+  exists x, compute_bytes (U_T U) (U_lay U) (U_refs U) pi fuel (U_root U) = Ok x.
+Proof. exact compute_bytes_terminates. Qed.
+Print Assumptions C20_terminates.
+
+(* lexical ids read as terms: when lex_uuid (a UUIDv5 hash of the referenced type's description) is
+   injective on the terms that occur, wire descriptions over uuids agree iff they agree over terms *)
+Theorem C20_terms : forall (H : uuid -> list N -> uuid) (A B : univL),
+  (forall x y, occurs H A x \/ occurs H B x -> occurs H A y \/ occurs H B y ->
+               lex_uuid H x = lex_uuid H y -> x = y) ->
+  (wire_equal (to_univ H A) (to_univ H B) <-> wire_equal_terms H A B).
+Proof. exact wire_equal_terms_iff. Qed.
+Print Assumptions C20_terms.
+
+(* partial: for an idealised hash (injective, 16-byte outputs, never a built-in constant) lex_uuid is
+   injective on terms without type arguments whose schema/type names contain no ':'.  Not covered:
+   custom_generic, raw ids; for arbitrary strings it is false (custom("a::b","c") = custom("a","b::c")) *)
+Theorem C20_lex_injective_partial : forall (H : uuid -> list N -> uuid),
+  (forall ns x ns' x', H ns x = H ns' x' -> ns = ns' /\ x = x') ->
+  (forall ns x, length (H ns x) = 16%nat) -> (forall ns x p, H ns x <> prim_lex p) ->
+  forall t t', lex_simple t -> lex_simple t' -> lex_uuid H t = lex_uuid H t' -> t = t'.
+Proof. exact lex_uuid_inj_partial. Qed.
+Print Assumptions C20_lex_injective_partial.
+
 (* an Introspection record serializes and deserializes to an equal record *)
 Theorem C20_roundtrip : forall r, intro_ok r = true ->
   exists bs, encode_intro r = Ok bs /\ decode_intro bs = Ok r.
@@ -114,6 +144,9 @@ Example C20_incoherent_order_matters :
   exists x y, compute_bytes T5 lay5 refs5 (fun s => s) 10 QRoot = Ok x /\
               compute_bytes T5 lay5 refs5 (@rev T5) 10 QRoot = Ok y /\ x <> y.
 Proof. exact (conj incoherent_not_coherent incoherent_order_matters). Qed.
+
+Example C20_witness_finite : forall t, u_reach ex_univ t -> In t [TNode; TOpt; TU8].
+Proof. intros [| |] _; cbn; auto. Qed.
 
 Example C20_witness_record : intro_ok ex_intro = true.
 Proof. exact ex_intro_ok. Qed.
